@@ -9,5 +9,6 @@ C1 == [name |-> "s1", topic |-> "t1", cfg |-> Cfg0]
 mcSetup == << [op |-> "CreateTopic", name |-> "t1"], [op |-> "CreateSub", c |-> C1] >>
 mcMsgKinds == { [key |-> "", attrs |-> <<>>] }
 mcWeights == [op \in {} |-> 1]
+mcProjOfName == <<>>
 mcOps == {"Publish", "Pull", "Ack", "ModAck", "Nack", "Tick"}
 =============================================================================
